@@ -185,3 +185,9 @@ func vSchedPolicy(p int) {}
 
 // vWatchStore registers a monitor run right after program code stores to the named struct field (engine only).
 func vWatchStore(field string, fn func(obj any)) {}
+
+// vCallMethod calls a method of the code under test by name (engine only) and returns its first result, nil if it has
+// none; used for private functions whose signature a change may alter, so that the harnesses keep compiling.
+func vCallMethod(recv any, name string, args ...any) any {
+	panic("vCallMethod is engine-only")
+}
